@@ -376,6 +376,14 @@ def run(ctx):
               [retype, barrier, cf('a', None, None, ('db_index', 'true'))],
               [retype, barrier, cf('a', None, None, ('max_length', '30'))],
               [cf('b', None, None, ('null', 'true')), retype, barrier, cf('a', None, '"x"', ('null', 'false'))]]
+    # ... and a relation added between two renames of its target (the reference names an intermediate model name)
+    rm = lambda old, new: {'t': 'RenameModel', 'old': old, 'new': new, 'db_table': 'vapp_alpha'}
+    fk = lambda field, target: {'t': 'AddField', 'model': 'Beta', 'field': field, 'ftype': 'ForeignKey', 'initial': None,
+                                'attrs': [['null', 'true'], ['related_model', '"vapp.%s"' % target]]}
+    family += [[rm('Alpha', 'Gamma'), fk('c', 'Gamma'), rm('Gamma', 'Delta')],
+               [rm('Alpha', 'Gamma'), fk('c', 'Gamma'), rm('Gamma', 'Delta'), rm('Delta', 'Alpha')],
+               [fk('c', 'Alpha'), rm('Alpha', 'Gamma'), rm('Gamma', 'Delta')],
+               [rm('Alpha', 'Gamma'), rm('Gamma', 'Delta'), fk('c', 'Delta')]]
     seqs = family + seqs
     copies = bool(ctx.variant.get('optimizer_copies'))
     reqs = [{'op': 'optimize', 'existing': existing, 'copies': copies,
